@@ -65,6 +65,14 @@ def subharnesses(tier):
             subs.append(('reconfig-%d-to-%d-cur%d' % (n0, n1, cur0),
                          {'kind': 'reconfig', 'n0': n0, 'n1': n1,
                           'cur0': cur0}))
+    # scale-down of a monitor whose count is changed through the real
+    # masterapi.update_appmonitor (count only, as the REST API sends it): the
+    # policy configured earlier still decides which instances go
+    for pol in (None, 'fifo', 'lifo'):
+        for n0, n1 in ((3, 1), (2, 0), (4, 3)):
+            subs.append(('scaledown-%s-%d-to-%d' % (pol, n0, n1),
+                         {'kind': 'scaledown', 'policy': pol, 'n0': n0,
+                          'n1': n1}))
     subs.append(('no-monitor', {'count': None, 'current': 2, 'susp': 'sym',
                                 'outcome': 'ok', 'last_waited': False,
                                 'policy': None}))
@@ -261,9 +269,113 @@ def harness_reconfig(S, spec):
         S.check('C20:create_although_nothing_missing', not later)
 
 
+def harness_scaledown(S, spec):
+    """Monitor created with a policy through masterapi.update_appmonitor on
+    memzk, count lowered by a count-only update, real _run_sync loop."""
+    import memzk
+    from crosshair.tracers import NoTracing
+    from treadmill import yamlwrapper as real_yaml
+    from treadmill.scheduler import masterapi
+    from treadmill.sproc import appmonitor as am
+    import treadmill.zknamespace as z
+    n0, n1, pol = spec['n0'], spec['n1'], spec['policy']
+    t = [S.int('t%d' % i, NOW0, NOW0 + 10 ** 6) for i in range(4)]
+    for a, b in zip(t, t[1:]):
+        S.require(S.z(a) <= S.z(b))
+    tree = memzk.Tree()
+    zk = memzk.Client(tree, 1)
+    zk.make_default_acl = lambda acl: acl
+    zk.set_acls = lambda path, acl: None
+    tree.seed(z.path.appmonitor(), b'{}')
+    with NoTracing():
+        masterapi.update_appmonitor(zk, APP, count=n0, policy=pol)
+    insts = ['%s#%010d' % (APP, i + 1) for i in range(n0)]
+    children, data_watch, calls = {}, {}, []
+    script = {'step': 0}
+
+    def _load(data):
+        d = dict(real_yaml.load(data))
+        if not S.concrete:
+            d['count'] = Q(d['count'], 1)
+        return d
+    am.yaml = type('Y', (), {'load': staticmethod(_load)})
+
+    def children_watch(path):
+        def deco(fn):
+            children[path] = fn
+            with NoTracing():
+                fn([APP] if 'monitor' in path else list(insts))
+            return fn
+        return deco
+    zk.ChildrenWatch = children_watch
+
+    def _existing_data_watch(_zk, path):
+        def deco(fn):
+            data_watch[path] = fn
+            fn(tree.nodes[path].data, object(), None)
+            return fn
+        return deco
+
+    class _Sleeper(_VT):
+        def sleep(self, _n):
+            k = script['step']
+            script['step'] = k + 1
+            if k == 0:
+                self.now = t[1]
+            elif k == 1:
+                self.now = t[2]
+                with NoTracing():
+                    masterapi.update_appmonitor(zk, APP, count=n1)
+                path = z.path.appmonitor(APP)
+                data_watch[path](tree.nodes[path].data, object(), None)
+                self.now = t[3]
+            else:
+                raise _Stop()
+    sl = _Sleeper()
+    am.time = sl
+    sl.now = t[0]
+
+    def post(urls, url, payload=None, headers=None, **_kw):
+        calls.append({'step': script['step'], 'url': url,
+                      'payload': payload})
+        return None
+    am.restclient.post = post
+    am.zkutils.update = lambda *a, **k: None
+    am.zkwatchers.ExistingDataWatch = _existing_data_watch
+    am.masterapi.get_suspended_appmonitors = lambda zk_: {}
+    am.make_alerter = lambda *a, **k: (lambda *a_, **k_: None)
+    am.utils = type('U', (), {'exit_on_unhandled': staticmethod(lambda f: f)})
+
+    class _Ctx:
+        cell = 'c'
+
+        class zk_:
+            conn = zk
+    _Ctx.zk = _Ctx.zk_
+    am.context = type('C', (), {'GLOBAL': _Ctx})
+    _install_numeric_shims(S, am)
+    try:
+        am._run_sync('http://api', '/nonexistent', False)
+    except _Stop:
+        pass
+    S.reach('scaled_down')
+    deletes = [c for c in calls if c['payload'] not in ({}, None)]
+    creates = [c for c in calls if c['payload'] == {}]
+    S.check('C20:create_although_nothing_missing', not creates,
+            {'calls': calls})
+    S.check('C20:surplus_not_deleted', len(deletes) == 1, {'calls': calls})
+    if deletes:
+        got = list(deletes[0]['payload']['instances'])
+        want = insts[n1 - n0:] if pol == 'lifo' else insts[:n0 - n1]
+        S.check('C20:wrong_instances_deleted', got == want,
+                {'deleted': got, 'expected': want, 'policy': pol})
+
+
 def harness(S, spec):
     if spec.get('kind') == 'reconfig':
         return harness_reconfig(S, spec)
+    if spec.get('kind') == 'scaledown':
+        return harness_scaledown(S, spec)
     import logging
     logging.disable(logging.CRITICAL)
     from treadmill import restclient
@@ -400,8 +512,10 @@ META = {
     'functions_encoded': ['sproc.appmonitor.reevaluate',
                           'sproc.appmonitor._run_sync (watch callbacks '
                           '_scheduled_watch, _appmonitors_watch, '
-                          '_monitor_data_watch; loop)'],
+                          '_monitor_data_watch; loop)',
+                          'scheduler.masterapi.update_appmonitor / '
+                          'get_appmonitor (on memzk)'],
     'reach_required': ['acted', 'created', 'deleted', 'create_succeeded',
                        'no_monitor', 'reconfigured',
-                       'created_after_reconfiguration'],
+                       'created_after_reconfiguration', 'scaled_down'],
 }
